@@ -325,7 +325,14 @@ class Session(object):
                 cwd = os.getcwd()
                 where = src[2] if len(src) > 2 else 'elsewhere'
                 try:
-                    if where == 'parent':
+                    if where == 'decoy':
+                        decoy = os.path.join(base, 'decoy')
+                        os.mkdir(decoy)
+                        for nm in src[1]:
+                            os.mkdir(os.path.join(decoy, nm))       # same names as the files, but directories, in the working directory
+                        os.chdir(decoy)
+                        arg = d0
+                    elif where == 'parent':
                         os.chdir(base)
                         arg = 'tree'
                     elif where == 'inside':
